@@ -17,7 +17,12 @@ RULE = ("scenario = one real threading Scheduler with 2-5 jobs (one-shots and un
         "linearizable w.r.t. the sequential registry machine with exec_jobs acting at two atomic points; no internal error, no "
         "deadlock, at most one invocation per (exec_jobs call, job), attempts <= max_attempts; dynamic lock discipline: every "
         "acquisition respects the rank order exec-lock < registry lock < job lock < timer lock and nobody waits for a thread or "
-        "the queue while holding a lock (hypotheses of the deadlock-freedom theorem); non-trivial = at least two operations "
+        "the queue while holding a lock (hypotheses of the deadlock-freedom theorem); registry-access discipline on the observed accesses "
+        "to the registry attribute: writes only under the registry lock, all accesses of one scheduling / delete_job / delete_jobs call in one "
+        "critical section (hypotheses of the reduction theorem); a quarter of the recurring jobs are batched jobs with one overdue occurrence "
+        "per time; an exec_jobs call must choose every job that was due before, after and between all reschedulings up to its return; when all "
+        "calls have returned a job executed n times is planned for its (n+1)-th occurrence; histories wider than 13 concurrent points skip the "
+        "linearizability query (lin-too-wide); non-trivial = at least two operations "
         "overlapped in real time and one of them changed the registry; distinct by (scenario, interleaving) hash")
 ASSUMPTIONS = ["CPython with a GIL: single C-level set operations (copy, len, list, add, remove, discard) are atomic",
                "callbacks in C14 scenarios do not call the scheduler (that is C15)", "jobs are one-shots or unlimited (retirement is then decided by the first run)"]
